@@ -27,6 +27,7 @@ type Case struct {
 	Director int   `json:"director"` // -2 none, -1 returns "", k>=0 always returns address k
 	Initial  []int `json:"initial"`
 	Spinners int   `json:"spinners"`
+	PingMS   []int `json:"ping_ms"` // per address: how long a health probe takes (slow probes are in flight across Updates)
 	Ops      []Op  `json:"ops"`
 }
 
@@ -47,6 +48,14 @@ func gen(t *rapid.T) Case {
 		Director: rapid.SampledFrom([]int{-2, -2, -2, -1, 0, 5}).Draw(t, "director"),
 		Initial:  genTargets(t),
 		Spinners: rapid.IntRange(1, 4).Draw(t, "spinners"),
+	}
+	slow := rapid.IntRange(0, 2).Draw(t, "slow_probes") > 0
+	for i := 0; i < 6; i++ {
+		ms := 0
+		if slow {
+			ms = rapid.SampledFrom([]int{0, 2, 20, 60, 130}).Draw(t, "ping_ms")
+		}
+		c.PingMS = append(c.PingMS, ms)
 	}
 	n := rapid.IntRange(2, 8).Draw(t, "nops")
 	for i := 0; i < n; i++ {
@@ -114,6 +123,19 @@ func run(c Case) kit.Outcome {
 		}
 	}
 	frt := kit.NewFakeRT()
+	if len(c.PingMS) > 6 {
+		return kit.Outcome{Invalid: true}
+	}
+	slowProbes := false
+	for i, ms := range c.PingMS {
+		if ms < 0 || ms > 1000 {
+			return kit.Outcome{Invalid: true}
+		}
+		if ms > 0 {
+			slowProbes = true
+			frt.SetPingLatency(addrs[i], time.Duration(ms)*time.Millisecond)
+		}
+	}
 	client := rpc.NewClient(nil)
 	client.Transport = frt
 	client.Scheduling = rpc.Scheduling(c.Policy)
@@ -186,7 +208,7 @@ func run(c Case) kit.Outcome {
 		}
 		time.Sleep(time.Duration(op.SleepMS) * time.Millisecond)
 	}
-	time.Sleep(120 * time.Millisecond)
+	time.Sleep(250 * time.Millisecond)
 	atomic.StoreInt32(&stop, 1)
 	done := make(chan struct{})
 	go func() { wg.Wait(); close(done) }()
@@ -241,6 +263,9 @@ func run(c Case) kit.Outcome {
 	}
 	if c.Director >= 0 {
 		out.Classes = append(out.Classes, "director-constant")
+	}
+	if slowProbes {
+		out.Classes = append(out.Classes, "slow-health-probes")
 	}
 	return out
 }
